@@ -205,6 +205,37 @@ pub(crate) fn install_totals(st: &mut SlotState, t: &Totals) {
     st.voted_stakes.top_notar = Stake::new(t.top_notar());
 }
 
+
+/// As `install_totals`, but a per-block counter exists exactly when some validator holds a vote
+/// of that class for the block (what `get_or_insert_with` + `+=` leaves behind, also for a
+/// zero-stake voter).  With concrete holder patterns the occupancy of the counter maps is then
+/// concrete, whatever the symbolic stakes are.
+pub(crate) fn install_totals_held<const N: usize>(st: &mut SlotState, t: &Totals, held: &[Held; N]) {
+    let mut h = 1u8;
+    while h <= 2 {
+        let mut any_notar = false;
+        let mut any_nf = false;
+        let mut i = 0;
+        while i < N {
+            any_notar = any_notar || held[i].notar == h;
+            any_nf = any_nf || held[i].nf(h);
+            i += 1;
+        }
+        if any_notar {
+            *st.voted_stakes.notar.get_or_insert_with(&block_hash(h), Stake::default) = Stake::new(t.notar[h as usize]);
+        }
+        if any_nf {
+            *st.voted_stakes.notar_fallback.get_or_insert_with(&block_hash(h), Stake::default) = Stake::new(t.nf[h as usize]);
+        }
+        h += 1;
+    }
+    st.voted_stakes.skip = Stake::new(t.skip);
+    st.voted_stakes.skip_fallback = Stake::new(t.sf);
+    st.voted_stakes.finalize = Stake::new(t.fin);
+    st.voted_stakes.notar_or_skip = Stake::new(t.notar_or_skip());
+    st.voted_stakes.top_notar = Stake::new(t.top_notar());
+}
+
 /// Signer masks (bit i = validator i) per vote class, from the ghost.
 pub(crate) fn mask<const N: usize>(held: &[Held; N], f: impl Fn(&Held) -> bool) -> u64 {
     let mut m = 0u64;
